@@ -18,6 +18,8 @@ structure Core where
   authority : Addr
   now       : Nat                 -- block time (ns) of the block being executed
   evlog     : List Event          -- ghost: events emitted (relayers listen to these)
+  sent      : List (PKey × Data)  -- ghost: packets accepted by `SendPacket` on this chain
+  ackLog    : List (PKey × Data)  -- ghost: acknowledgements accepted by `WriteAcknowledgement`
 
 /-! ### light-client verification at the ideal boundary -/
 
@@ -140,6 +142,7 @@ def sendPacket (s : Core) (p : Packet) : Core × Res :=
       else
         let s := s.setNextSend p.pair (next + 1)
         let s := s.setCommit p.key (H p.data)
+        let s := { s with sent := s.sent ++ [(p.key, p.data)] }
         (s.emit (pktEvent "send_packet" p), .ok)
 
 /-! ### `RecvPacket` -/
@@ -177,6 +180,7 @@ def writeAck (s : Core) (p : Packet) (ack : Data) : Core × Res :=
     | some _ =>
       let s := s.setAck p.key (H ack)
       let s := s.setMaxAck p.pair p.seq
+      let s := { s with ackLog := s.ackLog ++ [(p.key, ack)] }
       (s.emit (pktEvent "write_acknowledgement" p ack), .ok)
 
 /-! ### `AcknowledgePacket` -/
